@@ -543,6 +543,11 @@ class SigmaDetections:
             raise sigma_exceptions.SigmaConditionError(
                 "Sigma rule must contain at least one condition", source=self.source
             )
+        for name in self.detections:
+            if not isinstance(name, str):
+                raise sigma_exceptions.SigmaDetectionError(
+                    f"Detection identifier '{name}' must be a string", source=self.source
+                )
         self.parsed_condition = [SigmaCondition(cond, self, self.source) for cond in self.condition]
 
     @classmethod
